@@ -312,6 +312,34 @@ static void check_ctl_gone(const char *who, const char *path)
           who, path + strlen(g_dir) + 1);
 }
 
+/* ---- control clients (declared here, defined below) -------------------------------------------------- */
+struct outst {
+    char item;
+    int lo;                  /* g_nrec when the request was sent */
+    int healthy;             /* nothing malformed had been sent on the session before */
+    char name[XCM_ATTR_NAME_MAX + 1];
+};
+
+struct client {
+    int idx;
+    char name[8];
+    int xcmc;
+    int free_len;            /* > 0: the session is a free choice of up to free_len items */
+    char items[8];
+    int nitems;
+    int fd;
+    int poisoned;            /* a malformed datagram has been sent: the server may have dropped us */
+    struct outst q[8];
+    int qh, qt;
+    int waiting;             /* item whose reply is being waited for (0 = none) */
+    int waiting_owed;        /* ... and a reply is owed (well-formed request on a healthy session) */
+    int pumps_at_send;
+    int done;
+    int step;
+    unsigned char *buf;
+};
+static struct client g_cl[MAXCL];
+
 /* ---- pump ------------------------------------------------------------------------------------------- */
 static void pump(struct xcm_socket *s)
 {
@@ -333,13 +361,31 @@ static int owns_target(struct side *x)
     return x == &B;   /* B owns its connection and the server socket */
 }
 
+/* The control clients come into being when the application has got as far as rel= says (rel=99: when both
+   scripts have run to their end); the task that gets there yields once, so that the default schedule lets them in
+   at that point.  (Tasks created up front would only add start-up permutations that differ in nothing.) */
+static void task_client(void *arg);
+static void task_b(void *arg);
+static int g_released;
+
+static void maybe_release(void)
+{
+    if (g_released || !(g_tpath[0] || g_tclosed))
+        return;
+    if (!(g_stage >= g_rel || ((A.pc >= 5 || A.failed) && (B.pc >= 5 || B.failed))))
+        return;
+    g_released = 1;
+    for (int i = 0; i < g_ncl; i++)
+        mc_task_create(g_cl[i].name, task_client, &g_cl[i]);
+    mc_set_progress(0);
+}
+
 static void after_op(struct side *x)
 {
     g_stage++;
     if (owns_target(x) && g_tsock && !g_tclosed)
         pump(g_tsock);
-    if (g_stage == g_rel)
-        mc_set_progress(0);      /* let the clients in here in the default schedule */
+    maybe_release();
 }
 
 /* ---- chan oracle ------------------------------------------------------------------------------------- */
@@ -494,6 +540,7 @@ static void run_script(struct side *x)
     if (app_finish(x) < 0)
         return;
     x->pc++;
+    maybe_release();
 }
 
 /* the owner of the target keeps its event loop running while control sessions are open */
@@ -597,6 +644,7 @@ static void task_a(void *arg)
     (void)arg;
     struct side *x = &A;
     struct xcm_attr_map *at = mk_attrs(0, 1);
+    mc_task_create("B", task_b, NULL);
     mc_sched_point("connect");
     x->s = API("xcm_connect_a", 1, xcm_connect_a(g_addr, at));
     xcm_attr_map_destroy(at);
@@ -665,33 +713,6 @@ static void task_b(void *arg)
 }
 
 /* ---- control clients ----------------------------------------------------------------------------------- */
-struct outst {
-    char item;
-    int lo;                  /* g_nrec when the request was sent */
-    int healthy;             /* nothing malformed had been sent on the session before */
-    char name[XCM_ATTR_NAME_MAX + 1];
-};
-
-struct client {
-    int idx;
-    char name[8];
-    int xcmc;
-    int free_len;            /* > 0: the session is a free choice of up to free_len items */
-    char items[8];
-    int nitems;
-    int fd;
-    int poisoned;            /* a malformed datagram has been sent: the server may have dropped us */
-    struct outst q[8];
-    int qh, qt;
-    int waiting;             /* item whose reply is being waited for (0 = none) */
-    int waiting_owed;        /* ... and a reply is owed (well-formed request on a healthy session) */
-    int pumps_at_send;
-    int done;
-    int step;
-    unsigned char *buf;
-};
-static struct client g_cl[MAXCL];
-
 static const char *item_attr(char it)
 {
     switch (it) {
@@ -930,15 +951,6 @@ static void check_reply(struct client *c, const struct outst *o, const unsigned 
 }
 
 /* -- raw client -- */
-static int cl_released(void *arg)
-{
-    (void)arg;
-    if (!(g_tpath[0] || g_tclosed))
-        return 0;
-    /* rel=99: when both scripts have run to their end */
-    return g_stage >= g_rel || ((A.pc >= 5 || A.failed) && (B.pc >= 5 || B.failed));
-}
-
 static int cl_reply_ready(void *arg)
 {
     struct client *c = arg;
@@ -1003,7 +1015,6 @@ static void raw_read_reply(struct client *c)
 
 static void raw_client(struct client *c)
 {
-    mc_wait_cond(cl_released, NULL, "client-release");
     choose_session(c);
     mc_observe("%s session \"%s\"", c->name, c->items);
     c->buf = malloc(MSGSZ + 16);
@@ -1108,7 +1119,6 @@ static int xc_fd(struct xcmc_session *s) { return *(int *)s; }
 
 static void xcmc_client(struct client *c)
 {
-    mc_wait_cond(cl_released, NULL, "client-release");
     choose_session(c);
     mc_observe("%s xcmc session \"%s\"", c->name, c->items);
     if (g_tclosed)
@@ -1354,10 +1364,7 @@ static void scenario(const char *params)
         g_tsock = g_server;
     }
 
-    mc_task_create("A", task_a, NULL);
-    mc_task_create("B", task_b, NULL);
-    for (int i = 0; i < g_ncl; i++)
-        mc_task_create(g_cl[i].name, task_client, &g_cl[i]);
+    mc_task_create("A", task_a, NULL);       /* A starts B (task index 1) before it connects */
     enum mc_end end = mc_run((int)param_int(params, "horizon", 1500));
     mc_observe("end=%d", end);
 
